@@ -15,6 +15,9 @@ CLAIMS = {
  "C03": dict(units="the units of the host harnesses: src/rtosc.c, src/dispatch.c, src/cpp/arg-val*.c (direct), src/cpp/thread-link.cpp, port-sugar.h callbacks + ports.cpp metadata code (via IR)",
              text="Reachability of an allocator or lock is an assertion like any other: the stubs for malloc/calloc/realloc/free/pthread_mutex_lock and operator new/delete (incl. new[]) assert that the realtime-section flag is clear; the harnesses of C01 (build/measure/read, incl. 17/18-value varargs messages), C05 (matching), C06 (ThreadLink write/read/hasNext after construction), C07, C08 and C14 (parameter-port callbacks with recording reply/broadcast) raise the flag around every library call. The solver covers every path of the encoded functions for every input within the host harness bounds, including non-matching, oversized and rejected messages.",
              note="dispatch through port TREES (Ports::dispatch, default handlers, location tracking, hashed tables) is NOT covered: port tables could not be constructed under cbmc; RtData's default 8 KiB reply/broadcast forwarding is not covered; libc internals are stubs", ref="4/C03"),
+ "C04": dict(units="src/cpp/ports.cpp (Ports::dispatch incl. hashed, linear, no-location and default-handler branches; Port_Matcher::hard_match) via IR; src/dispatch.c, src/rtosc.c",
+             text="Four generated two-level tables (perfect-hash with sub-tree, enumerated with #N sub-tree, hashed with mixed type specs, linear with duplicate names). For every full path of a table and every single-position edit of it (one byte replaced by ANY byte 1..126, one byte inserted, one character removed) the set of callbacks invoked by the real Ports::dispatch equals the set computed by a reference matcher written from the documented pattern language, each exactly once; the runtime object handed down, the port pointer, the full address in the location buffer, its restoration, and the match count (default handler included) are checked; the same expected set is checked with and without a location buffer, i.e. for both lookup strategies.",
+             note="tables are CONSTRUCTED DIRECTLY (static Port arrays, vector internals of constructor-less Ports storage pointed at them, perfect-hash vectors taken from a native run of the real refreshMagic on the same names); the Ports constructor and the hash search are not symbolically executed; where the edited byte feeds the hash (hashed tables with a location buffer) or sits next to a numeric index it is enumerated over the table alphabet plus foreign characters instead of being symbolic; 7-bit addresses", ref="3/C04"),
  "C05": dict(units="src/dispatch.c (+ rtosc_argument_string of src/rtosc.c)",
              text="Per concrete pattern generated from the documented grammar (literal, #N, {a,b}, multi-component, trailing '/', ':types' incl. empty alternative) one SAT query covers EVERY address byte string up to the per-pattern bound, every type string of 0..3 bytes and arbitrary following bytes, against a reference matcher written from doc/Guide.adoc; plus a unit contract check of rtosc_match_options.",
              note="atoi is an environment model (stubs/atoi_model.c); alternatives prefix-free; patterns with two {..} groups only in the thorough tier; '*' patterns outside", ref="4/C05"),
@@ -44,8 +47,7 @@ CLAIMS = {
              note="createBinding/setSlotSubPath (port lookup, atof) not encoded; log scale outside; NRPN outside; roundf model", ref="4/C19"),
 }
 NA = {
- "C04": "needs a constructed port table: the Ports constructor (std::initializer_list -> std::vector<Port> copy, std::function clone, std::string keys, perfect-hash search) does not get through cbmc's symbolic execution within the budget, even for 3 ports and a concrete message (measured: no result in 200 s at unwind 5); the planned object-image fallback was not built. The per-level matching that dispatch relies on is decided under C05; callbacks under C14.",
- "C09": "walk_ports/port_is_enabled need constructed port trees (same obstacle as C04) plus snprintf formatting and Capture/std::vector scratch buffers of get_value_from_runtime; not encodable within reach",
+ "C09": "walk_ports/port_is_enabled need port trees plus snprintf formatting and Capture/std::vector scratch buffers of get_value_from_runtime; not encodable within reach",
  "C10": "pretty-format.c is a client of snprintf/sscanf/strftime in full generality (%a/%f/%n/%[ directives, float formatting); no validated bounded model of those directives was built, so neither the round trip nor the checker/scanner agreement can be decided by symbolic execution here",
  "C11": "same obstacle as C10: the scanner is driven by sscanf directive semantics that cbmc does not model and that were not modelled by hand in the available time",
  "C15": "UndoHistory keeps its events in a std::deque and allocates every event with new char[len] where len is computed at run time; with the pool allocator stub a symbolic allocation size makes every later address symbolic and the libstdc++ deque code does not finish; no check was built",
